@@ -5,7 +5,7 @@ from vlib import rat, unrat, exc_tag
 from pdb2sql import pdb2sql
 
 ID = 'C02'
-LEVEL = 'proof'
+LEVEL = 'translation_validation'   # raised to 'proof' once the central theorems of Props/ exist
 CLUSTER = 'A'
 GEN_UNITS = ['_format_atomname', '_format_xyz', 'data2pdb_line', '_format_pdb_linelength', '_get_chainID', '_get_element', 'record_loop']
 RULE = ('one table row per case, values drawn over exactly the quantified ranges: serial [-9999,99999], resSeq [-999,9999], names of 1-4 '
@@ -17,7 +17,8 @@ RULE = ('one table row per case, values drawn over exactly the quantified ranges
 ASSUMPTIONS = ["CPython '{:>w.kf}'.format(float) is the correctly rounded decimal rendering = Py.fmtFixed (compared on every sampled value)",
                'negative zero is not modelled (Rat has one zero): -0.0 is kept out of the generated coordinates']
 
-THRESH = [999.5 * 10 ** m for m in range(1, 5)] + [-999.5 * 10 ** m for m in range(0, 4)]   # 9999.5 .. 9999999.5 ; -999.5 .. -999999.5
+THRESH = [10.0 ** m - 0.5 for m in (4, 5, 6)] + [-(10.0 ** m) + 0.5 for m in (3, 4, 5)]   # 9999.5 99999.5 999999.5 ; -999.5 -9999.5 -99999.5
+NEAR_POW10 = [10.0 ** m for m in range(1, 8)] + [-(10.0 ** m) for m in range(1, 7)]
 ENDS = [1e8 - 0.5, -1e7 + 0.5]
 COLS = 'serial,name,altLoc,resName,chainID,resSeq,iCode,x,y,z,occ,temp,element'
 
@@ -38,7 +39,7 @@ def coord(rng):
         mag = 10 ** rng.uniform(-3, 7.99)
         v = mag if rng.random() < 0.6 else -mag / 10
         return v if rng.random() < 0.5 else round(v, rng.choice([0, 1, 2, 3]))
-    t = rng.choice(THRESH + ENDS)
+    t = rng.choice(THRESH + ENDS + NEAR_POW10)
     return t + rng.randint(-20, 20) * 0.0005
 
 
@@ -74,6 +75,10 @@ def cases(ctx):
         for k in range(-20, 21, step):
             x = t + k * 0.0005
             out.append({'op': 'export', 'row': row_json(gen_row(rng, x=x)), 'family': 'threshold-window'})
+    for t in NEAR_POW10:
+        for k in (-1200, -1001, -1000, -999, -501, -500, -499, -1, 0, 1, 499, 500, 501, 999, 1000, 1001):
+            x = t + k * 0.0005
+            out.append({'op': 'export', 'row': row_json(gen_row(rng, x=x)), 'family': 'power-of-ten-window'})
     # values that round up across a width boundary
     for x in [999.9995, 9999.4996, -999.4996, 99999.96, 99999.94, -0.0004, 0.0005, 0.0015, 999999.96, -99999.96, 9999999.6,
               12345678.4, 99999998.9, 99999999.4, -9999998.9, -9999999.4, 1e8 - 0.5, -1e7 + 0.5, 1e8, -1e7, 5e8, -3e7, 0.0, 1e-9, -1e-9]:
